@@ -438,6 +438,34 @@ pub mod q {
         kani::cover!(a != b && len == len2);
     }
 
+    /// Equality is observational: vectors with the same length and bits are
+    /// equal whatever their histories left beyond `len` (stale bits after
+    /// pop / resize, spare words).
+    #[kani::proof]
+    #[kani::unwind(26)]
+    pub fn eq_ignores_stale() {
+        let (a, len) = any_bv();
+        let b: [usize; N] = kani::any();
+        let mut k = 0;
+        while k < N {
+            if 64 * k >= len {
+                // unrelated storage
+            } else if len - 64 * k < 64 {
+                let m = lowmask(len - 64 * k);
+                kani::assume(a[k] & m == b[k] & m);
+            } else {
+                kani::assume(a[k] == b[k]);
+            }
+            k += 1;
+        }
+        let x = unsafe { BitVec::from_raw_parts(a, len) };
+        let y = unsafe { BitVec::from_raw_parts(b, len) };
+        assert!(x == y);
+        assert!(y == x);
+        kani::cover!(len % 64 != 0 && len > 64 && ((a[len / 64] ^ b[len / 64]) >> (len % 64)) & 1 == 1, "the bit at position len differs");
+        kani::cover!(len < 64 && a[2] != b[2], "spare words differ");
+    }
+
     /// `to_owned` and the Vec / Box / atomic conversions keep the contents.
     #[kani::proof]
     #[kani::unwind(26)]
